@@ -52,6 +52,9 @@ func genStep(r *vh.Rand, nh int, twoFamilies bool) qstep {
 	switch {
 	case twoFamilies && r.Chance(35):
 		p.Slot = 355 + r.Intn(20)
+		if r.Chance(30) {
+			p.Slot = 360 // the first slot of the second family hour
+		}
 	case r.Chance(15):
 		p.Slot = 3 * r.Intn(4) // slots written again and again
 	default:
@@ -173,6 +176,15 @@ func C11QueryWorlds(out *vh.Out, root string, seed uint64, n int) {
 	}, map[int][]*queryJ{
 		5: {mk(queryJ{Items: []itemJ{{0, 3}, {0, 0}}, Filter: []filterJ{{0, []int{0}}}, Lo: 0, Hi: 40}),
 			mk(queryJ{Items: []itemJ{{3, 0}}, Filter: []filterJ{{0, []int{1}}}, Lo: 6, Hi: 11, Ivl: 60})},
+	})
+	wi++
+	// ranges that end (inclusively) on the first slot of a family, or start there
+	c11World(out, root, wi, "directed: a range ending on the first slot of the next family hour", []qstep{
+		w(0, 350, map[int]int{0: 1}), w(0, 359, map[int]int{0: 2}), w(0, 360, map[int]int{0: 4}), w(1, 360, map[int]int{0: 8}), w(0, 361, map[int]int{0: 16}), {Op: "f"},
+		w(1, 360, map[int]int{0: 32}),
+	}, map[int][]*queryJ{
+		4: {mk(queryJ{Items: []itemJ{{0, 0}}, Lo: 350, Hi: 360}), mk(queryJ{Items: []itemJ{{0, 0}}, Lo: 360, Hi: 365}), mk(queryJ{Items: []itemJ{{0, 0}}, Group: []int{0}, Lo: 340, Hi: 361})},
+		6: {mk(queryJ{Items: []itemJ{{0, 0}}, Lo: 350, Hi: 360}), mk(queryJ{Items: []itemJ{{0, 0}}, Group: []int{0}, Lo: 359, Hi: 360})},
 	})
 	wi++
 	for i := 0; i < n; i++ {
